@@ -6,6 +6,7 @@ import (
 	"encoding/json"
 	"flag"
 	"fmt"
+	"hash/fnv"
 	"math/rand"
 	"os"
 	"sort"
@@ -445,6 +446,90 @@ func main() {
 						// the parser aborts the statement here; the SAME closure then serves the next statement
 						continue
 					}
+				}
+				enc.Encode(r)
+			}
+		}
+	case "llk":
+		// the look-ahead window of llk.go driven directly: NewLLk(text, k), then Consume attempts (mostly of the current
+		// token's type, sometimes of another type), recording the window (Current, Peek(1..k): kind and hash of the text)
+		// after every step; the token list itself comes from a separate run of the lexer
+		rng := rand.New(rand.NewSource(*seed))
+		hash := func(t string) uint32 {
+			if t == "" {
+				return 0
+			}
+			h := fnv.New32a()
+			h.Write([]byte(t))
+			return h.Sum32() | 1
+		}
+		type lstep struct {
+			Ok  bool     `json:"ok"`
+			Win []uint32 `json:"win"`
+		}
+		type lrun struct {
+			Kind   string      `json:"kind"`
+			Text   string      `json:"text"`
+			K      int         `json:"k"`
+			Toks   [][2]uint32 `json:"toks"`
+			Win0   []uint32    `json:"win0"`
+			Tys    []int       `json:"tys"`
+			Steps  []lstep     `json:"steps"`
+			PeekOK bool        `json:"peek_ok"` // Peek(0), Peek(k+1) are errors; Peek(j) never fails for 1 <= j <= k
+		}
+		window := func(l *grammar.LLk, k int) ([]uint32, bool) {
+			c := l.Current()
+			w := []uint32{uint32(c.Type), hash(c.Text)}
+			ok := true
+			for j := 1; j <= k; j++ {
+				t, err := l.Peek(j)
+				if err != nil || t == nil {
+					return w, false
+				}
+				w = append(w, uint32(t.Type), hash(t.Text))
+			}
+			if _, err := l.Peek(0); err == nil {
+				ok = false
+			}
+			if _, err := l.Peek(k + 1); err == nil {
+				ok = false
+			}
+			return w, ok
+		}
+		var texts []string
+		texts = append(texts, stmtCorpus...)
+		texts = append(texts, semInvalidCorpus...)
+		for _, k := range keys {
+			texts = append(texts, gram.Render(ws[k]))
+		}
+		texts = append(texts, longStatements()...)
+		texts = append(texts, ``, `;`, `select ?s from ?a where {?s "unterminated`, `create graph ?a ?b /u<x`, "\xff\xfe select", `select ?s from ?a where {?s "p"@[] ?o} #comment`)
+		for i := 0; i < *n; i++ {
+			toks := g.RandomSentence(rng.Intn, 3+rng.Intn(6))
+			texts = append(texts, gram.RenderVariant(toks, rng.Intn(7)))
+		}
+		ntok := len(gram.TokenNames())
+		for _, txt := range texts {
+			var toks [][2]uint32
+			for t := range lexer.New(txt, 0) {
+				toks = append(toks, [2]uint32{uint32(t.Type), hash(t.Text)})
+			}
+			for k := 1; k <= 3; k++ {
+				l := grammar.NewLLk(txt, k)
+				r := lrun{Kind: "llk", Text: txt, K: k, Toks: toks, PeekOK: true}
+				var ok bool
+				r.Win0, ok = window(l, k)
+				r.PeekOK = r.PeekOK && ok
+				for step := 0; step < len(toks)+k+3; step++ {
+					ty := int(l.Current().Type)
+					if rng.Intn(6) == 0 {
+						ty = 1 + rng.Intn(ntok-1)
+					}
+					res := l.Consume(lexer.TokenType(ty))
+					w, ok := window(l, k)
+					r.PeekOK = r.PeekOK && ok
+					r.Tys = append(r.Tys, ty)
+					r.Steps = append(r.Steps, lstep{res, w})
 				}
 				enc.Encode(r)
 			}
